@@ -317,12 +317,90 @@ fn flow_units(tier: Tier, _seed: u64) -> Vec<Unit> {
     units
 }
 
+/// deep sweeps on representative forms: complete 24-bit address / displacement spaces (thorough), strided (quick)
+fn deep_units(tier: Tier) -> Vec<Unit> {
+    let mut units = Vec::new();
+    let stride: u32 = if tier == Tier::Thorough { 1 } else { 251 };
+    for name in ["MOV.B @aa:24,Rd", "MOV.W Rs,@aa:24", "MOV.L @aa:24,ERd"] {
+        let dom = format!("every {}@aa:24 value 0..2^24-1 (even for W/L): mapped => the tagged byte(s) of exactly that address, unmapped => error and nothing touched", if stride == 1 { "".to_string() } else { format!("{}th ", stride) });
+        units.push(Unit::new(&format!("{}/ALL", name), 256, &dom, move |ctx, chunk| {
+            let row = ctx.isa.row(name);
+            let shape = mem_shape(ROWS[row].sem).unwrap();
+            let even = shape.sz != Sz::B;
+            let regs = dom::background_regs();
+            let (lo, hi) = chunk_range(1 << 24, 256, chunk);
+            let mut a = lo as u32 + (stride - (lo as u32 % stride)) % stride;
+            ctx.count_forms = false;
+            while (a as u64) < hi {
+                if !(even && a % 2 == 1) && !(a >= 0x40ff00 && a < 0x410100) {
+                    let mut f = default_fields(shape.sz);
+                    f.data = a;
+                    let c = build_case(&ctx.isa, row, &f, &shape, 0, 0x1234_5678, None, dom::CODE_DRAM, 0x00, &regs);
+                    ctx.run(&c);
+                }
+                a += stride;
+            }
+            ctx.count_forms = true;
+        }));
+    }
+    for name in ["MOV.B @(d:24,ERs),Rd", "MOV.L ERs,@(d:24,ERd)"] {
+        let dom = format!("every {}d:24 value 0..2^24-1 (even for L) x bases {{H'00500000, H'5AFFD000}}: effective address = (base + sext(d)) mod 2^24", if stride == 1 { "".to_string() } else { format!("{}th ", stride) });
+        units.push(Unit::new(&format!("{}/ALL", name), 256, &dom, move |ctx, chunk| {
+            let row = ctx.isa.row(name);
+            let shape = mem_shape(ROWS[row].sem).unwrap();
+            let even = shape.sz != Sz::B;
+            let regs = dom::background_regs();
+            let (lo, hi) = chunk_range(1 << 24, 256, chunk);
+            let mut d = lo as u32 + (stride - (lo as u32 % stride)) % stride;
+            ctx.count_forms = false;
+            while (d as u64) < hi {
+                if !(even && d % 2 == 1) {
+                    for base in [0x0050_0000u32, 0x5aff_d000] {
+                        let mut f = default_fields(shape.sz);
+                        f.data = d;
+                        let c = build_case(&ctx.isa, row, &f, &shape, base, 0x8765_4321, None, dom::CODE_RAM, 0x00, &regs);
+                        ctx.run(&c);
+                    }
+                }
+                d += stride;
+            }
+            ctx.count_forms = true;
+        }));
+    }
+    if tier == Tier::Thorough {
+        for name in ["MOV.B Rs,@(d:16,ERd)", "MOV.W @(d:16,ERs),Rd"] {
+            units.push(Unit::new(&format!("{}/ALLxTOP", name), 256, "all 65536 d:16 values x all 256 upper bytes of the base register x 2 low-24 bases", move |ctx, chunk| {
+                let row = ctx.isa.row(name);
+                let shape = mem_shape(ROWS[row].sem).unwrap();
+                let even = shape.sz != Sz::B;
+                let regs = dom::background_regs();
+                let top = chunk as u32;
+                ctx.count_forms = false;
+                for d in 0..65536u32 {
+                    if even && d % 2 == 1 {
+                        continue;
+                    }
+                    for low in [0x500000u32, 0xffdf20] {
+                        let mut f = default_fields(shape.sz);
+                        f.data = d;
+                        let c = build_case(&ctx.isa, row, &f, &shape, low | (top << 24), 0x0bad_f00d, None, dom::CODE_DRAM, 0x00, &regs);
+                        ctx.run(&c);
+                    }
+                }
+                ctx.count_forms = true;
+            }));
+        }
+    }
+    units
+}
+
 pub fn c08(tier: Tier, seed: u64) -> Prop {
     let mut units = Vec::new();
     for name in mem_rows() {
         units.extend(ea_units(name, tier, seed));
     }
     units.extend(flow_units(tier, seed));
+    units.extend(deep_units(tier));
     Prop {
         id: "C08",
         level: "exploration",
